@@ -119,16 +119,29 @@ def run_unit(unit, tier):
             break
 
     # ---- failed obligations -> replay ----------------------------------------
-    seen = set()
+    # one verdict per assertion label; up to three counter-examples (from different paths) are replayed for it, each
+    # first at the solver's (non-degenerate) model and then at its large-magnitude model
+    seen, tries, pending = set(), {}, {}
     for p, ob in ex.failed():
-        if ob.label in seen:
+        if ob.label in seen or tries.get(ob.label, 0) >= 3:
             continue
-        seen.add(ob.label)
-        vals = {k: _jsonable(v) for k, v in (ob.model_vals or {}).items()}
-        rep = replay_values(unit, vals, ob.label)
-        res["violations" if rep["reproduced"] else "inconclusive"].append({
-            "unit": unit.name, "label": ob.label, "kind": "assertion", "path": p.index,
-            "values": vals, "replay": rep})
+        tries[ob.label] = tries.get(ob.label, 0) + 1
+        entry = None
+        for mv in [ob.model_vals] + list(getattr(ob, "alt_vals", []) or []):
+            vals = {k: _jsonable(v) for k, v in (mv or {}).items()}
+            rep = replay_values(unit, vals, ob.label)
+            cand = {"unit": unit.name, "label": ob.label, "kind": "assertion", "path": p.index, "values": vals, "replay": rep}
+            if rep["reproduced"]:
+                entry = cand
+                break
+            pending.setdefault(ob.label, cand)
+        if entry is not None:
+            seen.add(ob.label)
+            pending.pop(ob.label, None)
+            res["violations"].append(entry)
+    for lab, cand in pending.items():
+        if lab not in seen:
+            res["inconclusive"].append(cand)
     for p, ob in ex.unknown():
         res["inconclusive"].append({"unit": unit.name, "label": ob.label, "kind": "solver-unknown",
                                     "how": ob.how, "path": p.index})
